@@ -359,4 +359,27 @@ theorem single_resend_exceeds_max_by_one :
     let res := requestF env0 { maxRedirects := 1 } url0 none GET [] [] none none () [.drop, .resp ⟨200, .none, 0⟩]
     res.sent.length = 2 ∧ res.out = .ok 0 [] := by decide +kernel
 
+/-- **netrc credentials are looked up for the host of the very request that carries them.**  In
+every chain (with or without connection faults), a header that carries a netrc provenance is an
+`Authorization` header and its value is the netrc entry of *that request's* host - never an entry
+looked up for an earlier hop's host and carried along (what a per-call cache of the lookup would do). -/
+theorem netrc_credential_is_for_this_host (env : Env) (cfg : Cfg) (url : Url) (params : Option Str) (method : Str)
+    (defaults headers : List (Str × Str)) (cookies : Option (List (Str × Str))) (data : Option Body)
+    (jar0 : env.jar.σ) (chain : List Reply) :
+    ∀ sk ∈ (requestF env cfg url params method defaults headers cookies data jar0 chain).sent,
+      ∀ hd ∈ sk.headers, ∀ k, Prov.netrc k ∈ hd.provs →
+        ciEq hd.name AUTHORIZATION = true ∧ env.netrc sk.url.origin.host = some hd.value := by
+  intro sk hk hd hhd k hp
+  exact runF_netrc (cfg := cfg) chain _ (initF_netrc env cfg url params method defaults headers cookies data jar0 _) sk hk hd hhd k hp
+
+/-- non-vacuity: with `trust_env` and a netrc entry for `a.test` only, a chain a.test → b.test sends the
+entry to a.test and nothing to b.test -/
+example :
+    let envN : Env := { env0 with netrc := fun h => if h == S "a.test" then some (S "Basic NA") else none }
+    let b : Url := { origin := ⟨0, S "b.test", 80⟩, hostHdr := S "b.test", target := S "/" }
+    let res := requestF envN { trustEnv := true } url0 none GET [] [] none none ()
+      [.resp ⟨302, .ok b, 0⟩, .resp ⟨200, .none, 0⟩]
+    res.sent.map (fun s => (getFirst AUTHORIZATION s.headers).map (·.value)) = [some (S "Basic NA"), none] := by
+  decide +kernel
+
 end Aio.C17
